@@ -247,6 +247,38 @@ def run(tier, seed):
             stats["cross_store_chains"] = stats.get("cross_store_chains", 0) + (1 if len(set(cls)) > 1 else 0)
             if len(rep.samples) < 2:
                 rep.samples.append(dict(meta, provenance=provs))
+        # the partition that declares a parent is itself one that was READ BACK from the store (handed on by another call)
+        for ti in range(2):
+            path = os.path.join(scratch, "preread%d" % ti)
+
+            def rbackend():
+                return FilesystemStorageBackend(path=path)
+            fnlib.set_env(m, scratch, {"fc": (rbackend(), None), "fc2": (FilesystemStorageBackend(path=path + "-other"), None)})
+            own_spec = {"id": 9300 + ti, "own": [["b", {"k": "int", "v": 13}], ["c", {"k": "str", "v": "v14"}]], "parent": None, "ondisk": bool(ti)}
+            base_spec = {"id": 9310 + ti, "own": [["a", {"k": "int", "v": 1}], ["z", {"k": "int", "v": 2}], ["b", {"k": "int", "v": 3}]], "parent": None, "ondisk": False}
+            top_spec = {"id": 9320 + ti, "own": [], "own_from": own_spec, "parent": base_spec, "ondisk": False}
+            meta = {"own partition (read back from the store)": own_spec["own"], "declared parent": base_spec["own"]}
+            stats["readback_own_with_parent"] = stats.get("readback_own_with_parent", 0) + 1
+            try:
+                fnmod.pnode(own_spec)
+                fnmod.pnode(base_spec)
+                fnlib.set_env(m, scratch, {"fc": (rbackend(), None), "fc2": (FilesystemStorageBackend(path=path + "-other"), None)})
+                first = fnmod.pnode(top_spec)
+                want = {"a": 1, "z": 2, "b": 13, "c": 14}
+                got1 = read_partition(first)[0]
+                fnlib.set_env(m, scratch, {"fc": (rbackend(), None), "fc2": (FilesystemStorageBackend(path=path + "-other"), None)})
+                got2 = read_partition(fnmod.pnode(top_spec))[0]
+                # (the object the body returned is a store-backed handle whose own listing does not consult the parent it was
+                # given; the property speaks of the STORED result, which is what is compared)
+                for label, got in (("fresh backend", got2),):
+                    if got != want:
+                        rep.violation("C17:parent-entries-lost:own-partition-read-back", "a partition read back from the store that declares a parent: through %s it reads %r, the overlay is %r" % (label, got, want), meta)
+                        break
+            except Exception as e:
+                rep.violation("C17:readback-own-raised", "%s: %s" % (type(e).__name__, str(e)[:150]), meta)
+            first = None
+            shutil.rmtree(path, ignore_errors=True)
+            shutil.rmtree(path + "-other", ignore_errors=True)
         # a partition staged on disk hands out a NEW object for every key it is asked for (nothing keeps the previous one
         # alive): many own keys with distinct values of the same size, each must read back its own value
         for ti, cache in enumerate([False, True]):
